@@ -441,6 +441,15 @@ func nestedMap(depth int, leaf interface{}) interface{} {
 
 func badLeaf(kind string) interface{} {
 	switch kind {
+	case "too-deep-300", "too-deep-1500":
+		// nothing is wrong with this one except its depth: 300 (1500) further
+		// maps below the chosen depth; beyond the engine's limit for nested maps
+		// the rest is seen as null, which is no error
+		n := 300
+		if kind == "too-deep-1500" {
+			n = 1500
+		}
+		return nestedMap(n, 1)
 	case "map[string]int":
 		return map[string]interface{}{"next": map[string]int{"x": 1}}
 	case "map[bool]any":
@@ -516,6 +525,13 @@ func runReflect(c *ReflectCase) error {
 }
 
 func init() {
+	replayers["C04/reflect"] = func(raw []byte) error {
+		var c ReflectCase
+		if err := json.Unmarshal(raw, &c); err != nil {
+			return err
+		}
+		return runReflect(&c)
+	}
 	replayers["C08/reflect"] = func(raw []byte) error {
 		var c ReflectCase
 		if err := json.Unmarshal(raw, &c); err != nil {
@@ -538,9 +554,9 @@ func TestC07Reflect(t *testing.T) {
 	rapidCheck(t, col, func(rt *rapid.T) {
 		c := &ReflectCase{Prop: "C07", Kind: "reflect", Script: reflectScript,
 			BadRuns:  rapid.SampledFrom([]int{1, 2, 5, 20}).Draw(rt, "badruns"),
-			BadDepth: rapid.SampledFrom([]int{0, 1, 10, 100, 400, 900}).Draw(rt, "baddepth"),
-			BadLeaf:  rapid.SampledFrom([]string{"map[string]int", "map[bool]any", "map[int]any", "chan", "struct"}).Draw(rt, "badleaf"),
-			Good:     rapid.SampledFrom([]int{0, 3, 50, 600, 950, 990}).Draw(rt, "good"),
+			BadDepth: rapid.SampledFrom([]int{0, 1, 10, 100, 400, 900, 995, 999, 1000}).Draw(rt, "baddepth"),
+			BadLeaf:  rapid.SampledFrom([]string{"map[string]int", "map[bool]any", "map[int]any", "chan", "struct", "too-deep-300", "too-deep-1500"}).Draw(rt, "badleaf"),
+			Good:     rapid.SampledFrom([]int{0, 3, 50, 600, 950, 990, 996, 997, 998, 999, 1000, 1001, 1002, 1100}).Draw(rt, "good"),
 			Repair:   rapid.Bool().Draw(rt, "repair")}
 		if err := runReflect(c); err != nil {
 			c.Msg = err.Error()
@@ -555,19 +571,25 @@ func TestC07Reflect(t *testing.T) {
 // TestC08Repair: "the evaluator remains usable afterwards" for the maps
 // themselves: an object whose conversion failed is repaired in place and
 // handed over again (reported under C08; the history is C07Reflect's).
-func TestC08Repair(t *testing.T) {
+func TestC08Repair(t *testing.T) { repairCheck(t, "C08") }
+
+// TestC04Deep: "each run sees the object passed to that run" for nested maps
+// at and beyond the depth the engine follows them to (same histories).
+func TestC04Deep(t *testing.T) { repairCheck(t, "C04") }
+
+func repairCheck(t *testing.T, prop string) {
 	defer silenceAs("repair")()
-	col := evid.New("C08", "repair", "")
+	col := evid.New(prop, "repair", "")
 	rapidCheck(t, col, func(rt *rapid.T) {
-		c := &ReflectCase{Prop: "C08", Kind: "reflect", Script: reflectScript,
+		c := &ReflectCase{Prop: prop, Kind: "reflect", Script: reflectScript,
 			BadRuns:  rapid.SampledFrom([]int{1, 2, 5, 20, 200}).Draw(rt, "badruns"),
 			BadDepth: rapid.SampledFrom([]int{0, 1, 2, 10, 100, 400, 900}).Draw(rt, "baddepth"),
-			BadLeaf:  rapid.SampledFrom([]string{"map[string]int", "map[bool]any", "map[int]any", "chan", "struct"}).Draw(rt, "badleaf"),
-			Good:     rapid.SampledFrom([]int{0, 3, 50, 600, 950, 990}).Draw(rt, "good"),
-			Repair:   true}
+			BadLeaf:  rapid.SampledFrom([]string{"map[string]int", "map[bool]any", "map[int]any", "chan", "struct", "too-deep-300", "too-deep-1500"}).Draw(rt, "badleaf"),
+			Good:     rapid.SampledFrom([]int{0, 3, 50, 600, 950, 990, 996, 997, 998, 999, 1000, 1001, 1002, 1100}).Draw(rt, "good"),
+			Repair:   prop == "C08" || rapid.Bool().Draw(rt, "repair")}
 		if err := runReflect(c); err != nil {
 			c.Msg = err.Error()
-			violation(rt, "C08", c, "%v", err)
+			violation(rt, prop, c, "%v", err)
 		}
 		col.Class("bad-leaf:" + c.BadLeaf)
 		cc := c
